@@ -91,6 +91,28 @@ theorem skipErrors_none (f : Nat) (l : Lexer) (h : (nextToken l).1 = none) :
   unfold skipErrors
   simp only [h]
 
+theorem skipErrors_bad_after (f : Nat) (l : Lexer) (h : (nextToken l).2.errout ≠ []) :
+    (skipErrors (f + 1) l).2.errout ≠ [] := by
+  unfold skipErrors
+  simp only
+  split
+  · exact h
+  · split
+    · exact skipErrors_keeps _ _ h
+    · exact h
+
+theorem suffix_of_append_eq (pre suf pre' rest : List Char) (h : pre ++ suf = pre' ++ rest)
+    (hl : pre.length < pre'.length) : ∃ a, suf = a ++ rest ∧ rest.length + 1 ≤ suf.length := by
+  rcases List.append_eq_append_iff.mp h with ⟨a, h1, h2⟩ | ⟨c, h1, h2⟩
+  · refine ⟨a, h2, ?_⟩
+    rw [h1] at hl
+    rw [h2]
+    simp only [List.length_append] at hl ⊢
+    omega
+  · rw [h1] at hl
+    simp only [List.length_append] at hl
+    omega
+
 theorem sim : Sim lexSource listSource (R text file) := by
   refine ⟨?_, ?_, ?_⟩
   · intro l s h
@@ -127,7 +149,7 @@ theorem sim : Sim lexSource listSource (R text file) := by
         -- a quote or comment that is never closed
         rw [hsn] at hout
         right
-        refine ⟨skipErrors_keeps _ _ hout, ?_⟩
+        refine ⟨skipErrors_bad_after F l' hout, ?_⟩
         show (lpull b (srcOf text file (g + 1) suf)).2.errs ≠ []
         unfold lpull srcOf scanAll
         simp [hsn]
@@ -154,7 +176,7 @@ theorem sim : Sim lexSource listSource (R text file) := by
             simp [hsn]
           rcases hout with ⟨hb, he⟩ | ⟨hb, htok, pre', ht', hlen, hg2, hp2⟩
           · right
-            refine ⟨skipErrors_keeps _ _ he, ?_⟩
+            refine ⟨skipErrors_bad_after F l' he, ?_⟩
             show (lpull b (srcOf text file (g + 1) suf)).2.errs ≠ []
             unfold lpull srcOf
             rw [hscan]
@@ -166,26 +188,204 @@ theorem sim : Sim lexSource listSource (R text file) := by
               rw [hscan]
               simp [hb]
             rw [skipErrors_token F l' _ htok (conv_code_ne_error text file t), hle]
-            refine ⟨rfl, Or.inl ⟨pre', rest, g, ht', hg2, ?_, ?_, rfl⟩⟩
-            · -- the rest of a text that ends in a line feed does
-              have h1 : suf = (suf.take (suf.length - rest.length)) ++ rest := by
-                have hl : pre.length + suf.length = pre'.length + rest.length := by
-                  have := congrArg List.length (ht.symm.trans ht')
-                  simpa [List.length_append] using this
-                have hdrop : suf.drop (suf.length - rest.length) = rest := by
-                  have h2 : (pre ++ suf).drop pre'.length = rest := by
-                    rw [← ht, ht', List.drop_left']; rfl
-                  rw [List.drop_append_of_le_length (by omega)] at h2
-                  · sorry
-                rw [← hdrop, List.take_append_drop]
-              rw [h1] at hnl
-              exact hnl.suffix
-            · have hl : pre.length + suf.length = pre'.length + rest.length := by
-                have := congrArg List.length (ht.symm.trans ht')
-                simpa [List.length_append] using this
-              omega
-    · sorry
+            obtain ⟨a, ha, hal⟩ := suffix_of_append_eq pre suf pre' rest (ht.symm.trans ht') hlen
+            refine ⟨rfl, Or.inl ⟨pre', rest, g, ht', hg2, ?_, by omega, rfl⟩⟩
+            rw [ha] at hnl
+            exact hnl.suffix
+    · -- both are at the end
+      obtain ⟨l', hl'⟩ : ∃ l', l' = ({ l with inPattern := b } : Lexer) := ⟨_, rfl⟩
+      rw [← hl']
+      have hi : l'.items = [] := by rw [hl']; exact hr.items
+      have hs' : l'.state = .done := by rw [hl']; exact hst
+      have hnt : nextToken l' = (none, l') := by
+        unfold nextToken
+        exact nextTokenLoop_done _ l' hi hs'
+      left
+      rw [skipErrors_none F l' (by rw [hnt]), hnt]
+      have hlist : listSource.pull b s = lpull b s := rfl
+      rw [hlist, hs]
+      refine ⟨rfl, Or.inr ⟨hs', ?_, rfl⟩⟩
+      rw [hl']
+      exact ⟨hr.items, hr.errout, hr.errcnt, hr.fault, hr.file⟩
 
 end
+
+/-! ## the text the lexer works on -/
+
+/-- `newLexer`: a line feed is appended unless the text is empty or ends in one -/
+def normText (text : List Char) : List Char :=
+  if text = [] ∨ text.getLast? = some '\n' then text else text ++ ['\n']
+
+theorem encChar_getLast (c : Char) : (encChar c).getLast? = some 10 ↔ c = '\n' := by
+  constructor
+  · intro h
+    have hm : (10 : UInt8) ∈ encChar c := List.mem_of_getLast? h
+    have := (mem_encChar_ascii c 10 (by decide) hm).2
+    exact char_eq_of_toNat_eq c '\n' (by rw [this]; decide)
+  · intro h; rw [h]; decide
+
+theorem enc_getLast : ∀ (text : List Char), (encodeChars text).getLast? = some 10 ↔ text.getLast? = some '\n' := by
+  intro text
+  induction text with
+  | nil => simp [encodeChars]
+  | cons c r ih =>
+    rw [encodeChars_cons]
+    cases r with
+    | nil =>
+      rw [encodeChars_nil, List.append_nil]
+      simp only [List.getLast?_singleton, Option.some.injEq]
+      exact encChar_getLast c
+    | cons d r' =>
+      have hne : encodeChars (d :: r') ≠ [] := by
+        intro h; exact absurd (encodeChars_eq_nil _ h) (by simp)
+      rw [List.getLast?_append]
+      cases hl : (encodeChars (d :: r')).getLast? with
+      | none => exact absurd (List.getLast?_eq_none_iff.mp hl) hne
+      | some x =>
+        simp only [Option.some_or]
+        rw [← hl, ih]
+        simp [List.getLast?_cons_cons]
+
+theorem newLexer_enc (text : List Char) (file : List UInt8) :
+    newLexer (encodeChars text) file =
+      { errout := [], errcnt := 0, file := file, before := [], rest := encodeChars (normText text), start := 0,
+        line := 1, col := 0, inPattern := false, items := [], tcol := 0, scol := 0, sline := 0, state := .ground,
+        width := 0, fault := .none } := by
+  unfold newLexer normText
+  by_cases hnil : text = []
+  · subst hnil; simp [encodeChars]
+  · have hlen : (encodeChars text).length > 0 := by
+      cases hl : (encodeChars text).length with
+      | zero => exact absurd (encodeChars_eq_nil text (List.eq_nil_of_length_eq_zero hl)) hnil
+      | succ n => omega
+    by_cases hlast : text.getLast? = some '\n'
+    · have : (encodeChars text).getLast? = some 10 := (enc_getLast text).2 hlast
+      simp [this, hlast]
+    · have : ¬ (encodeChars text).getLast? = some 10 := fun h => hlast ((enc_getLast text).1 h)
+      simp only [hnil, hlast, or_self, if_false]
+      have hcond : (decide ((encodeChars text).length > 0) && (encodeChars text).getLast? != some 10) = true := by
+        simp [hlen, this]
+      simp only [hcond, if_true]
+      rw [encodeChars_append]
+      rfl
+
+theorem normText_endsNL (text : List Char) : EndsNL (normText text) := by
+  unfold normText EndsNL
+  split
+  · rename_i h; exact h
+  · right; simp
+
+theorem parse_norm (text : List Char) : parse (normText text) = parse text := by
+  unfold normText; split
+  · rfl
+  · exact Goyang.Lemmas.Newline.parse_nl text
+
+theorem admissible_norm (text : List Char) : Admissible (normText text) = Admissible text := by
+  unfold normText; split
+  · rfl
+  · exact Goyang.Lemmas.Newline.admissible_nl text
+
+theorem normText_length (text : List Char) : (normText text).length ≤ text.length + 1 := by
+  unfold normText; split <;> simp
+
+/-! ## admissibility as far as the proof needs it -/
+
+open Goyang.Lemmas.QStr in
+theorem okTok_of_not_excluded (text : List Char) (t : PTok) (h : tokExcluded text t = false) : okTok t := by
+  obtain ⟨tok, off⟩ := t
+  cases tok with
+  | dq raw =>
+    show noEscBlankEnd raw
+    simp only [tokExcluded, dqExcluded, Bool.or_eq_false_iff] at h
+    obtain ⟨⟨_, h2⟩, _⟩ := h
+    intro x hx q hq
+    rw [List.any_eq_false] at h2
+    have := h2 x hx
+    rw [hq] at this
+    simpa using this
+  | semi => trivial
+  | lbrace => trivial
+  | rbrace => trivial
+  | unq s => trivial
+  | sq s => trivial
+
+theorem scanAll_length (n : Nat) : ∀ (f : Nat) (cs : List Char), (scanAll n f cs).1.length ≤ cs.length := by
+  intro f
+  induction f with
+  | zero => intro cs; simp [scanAll]
+  | succ f ih =>
+    intro cs
+    unfold scanAll
+    cases hs : specNext n cs with
+    | none => simp
+    | some o =>
+      cases o with
+      | none => simp
+      | some p =>
+        obtain ⟨t, r⟩ := p
+        simp only [List.length_cons]
+        have := (specNext_lt n cs t r hs).1
+        have := ih r
+        omega
+
+/-! ## (e) -/
+
+/-- **(e)** for every Unicode text that contains none of the excluded constructs: the parser model
+returns a forest exactly when the reference reader does, and then it is the reference reader's
+forest, encoded -/
+theorem parseText_ok_iff (file : List UInt8) (text : List Char) (hadm : Admissible text = true)
+    (forest : List Statement) :
+    parseText file (encodeChars text) = .ok forest ↔
+      ∃ ss, parse text = some ss ∧ forest = encStmts file ss := by
+  unfold parseText
+  rw [newLexer_enc]
+  obtain ⟨t', ht'⟩ : ∃ t', t' = normText text := ⟨_, rfl⟩
+  rw [← ht']
+  have hR : R t' file
+      { errout := [], errcnt := 0, file := file, before := [], rest := encodeChars t', start := 0,
+        line := 1, col := 0, inPattern := false, items := [], tcol := 0, scol := 0, sline := 0, state := .ground,
+        width := 0, fault := .none } (srcOf t' file (t'.length + 1) t') := by
+    left
+    refine ⟨[], t', t'.length + 1, rfl, ⟨⟨rfl, rfl, rfl⟩, ?_, ⟨rfl, rfl, rfl, rfl, rfl⟩, rfl⟩,
+      by rw [ht']; exact normText_endsNL text, Nat.le_refl _, rfl⟩
+    exact Pos.posN ⟨rfl, rfl⟩ _
+  rw [parseWith_sim (sim t' file) lexSource_mono listSource_mono _ _ _ hR forest]
+  have hparse : parse t' = parse text := by rw [ht']; exact parse_norm text
+  have hadm' : Admissible t' = true := by rw [ht', admissible_norm]; exact hadm
+  rw [← hparse]
+  have htok := tokensAux_scanAll t'.length (t'.length + 1) t'
+  have hlen := scanAll_length t'.length (t'.length + 1) t'
+  have hfuel : (scanAll t'.length (t'.length + 1) t').1.length + 2 ≤ parseFuel (encodeChars text).length := by
+    unfold parseFuel
+    have h1 := normText_length text
+    rw [← ht'] at h1
+    have h2 := encodeChars_length_ge text
+    omega
+  unfold srcOf
+  cases hok : (scanAll t'.length (t'.length + 1) t').2 with
+  | true =>
+    rw [hok] at htok
+    simp only [if_true] at htok ⊢
+    have htz : tokenize t' = some (scanAll t'.length (t'.length + 1) t').1 := htok
+    have hall : ∀ x ∈ (scanAll t'.length (t'.length + 1) t').1, okTok x := by
+      intro x hx
+      unfold Admissible at hadm'
+      rw [htz] at hadm'
+      simp only [List.all_eq_true, Bool.not_eq_eq_eq_not, Bool.not_true] at hadm'
+      exact okTok_of_not_excluded t' x (hadm' x hx)
+    rw [parse_list t' file _ none _ hfuel hall forest]
+    unfold parse
+    rw [htz]
+    simp
+  | false =>
+    rw [hok] at htok
+    simp only [Bool.false_eq_true, if_false] at htok ⊢
+    have htz : tokenize t' = none := htok
+    constructor
+    · intro h; exact absurd h (parse_list_fail t' file _ dummyErr _ forest)
+    · rintro ⟨ss, hss, _⟩
+      unfold parse at hss
+      rw [htz] at hss
+      cases hss
 
 end Goyang.Lemmas.Compose
